@@ -52,7 +52,7 @@ ViewOk(q) ==
     /\ (5 \in q.defects) <=> (q.carrier \in {"both", "none"})
     /\ (7 \in q.defects) => q.carrier # "qry"           \* no key=value syntax rule on the query carrier
     /\ ~(11 \in q.defects /\ 12 \in q.defects)          \* one instant is not both too old and too new
-    /\ q.formKind \in {k \in AllKinds : Status(k) = 400}
+    /\ q.formKind \in {k \in AllKinds : Status(k) = 400} \ {"MissingAuthenticationToken", "IncompleteSignature"}
 
 Views == {q \in [defects : SUBSET AllDefects, carrier : Carriers,
                  formKind : {"InvalidBodyEncoding", "MalformedQueryString"}] :
